@@ -202,6 +202,13 @@ def _branches(root):
     return out
 
 
+def _all_nodes(root):
+    out = [root]
+    for c in root.inner.values():
+        out.extend(_all_nodes(c))
+    return out
+
+
 def _procs(root):
     out = []
 
@@ -345,6 +352,11 @@ def gen_op(ctx, shadow, at=None, ps_choices=None, engine_ports=None):
         if not cands:
             return None
         mother = rng.choice(cands)
+        # F12 (recorded for C11): the default `set` divider hands the SAME object to both daughters;
+        # if a variable below the mother holds a dict, `deep_merge` of one daughter's initial_state
+        # mutates it and the state leaks into the other daughter.  The model has no sharing, so
+        # no initial_state is given in that situation (see notes/C09.md).
+        shared = any(isinstance(n.value, dict) for n in _all_nodes(node.inner[mother]))
         ds = []
         for i in range(2):
             d = {'key': ctx.fresh('d')}
@@ -357,7 +369,7 @@ def gen_op(ctx, shadow, at=None, ps_choices=None, engine_ports=None):
                     d['steps'] = steps
                 if flow:
                     d['flow'] = flow
-            if rng.random() < 0.3:
+            if rng.random() < 0.3 and not shared:
                 d['initial_state'] = rng.choice([{}, {'s0': {'x': rng.randrange(9)}}, {'extra': {}}])
             ds.append(d)
         if rng.random() < 0.05:
